@@ -166,12 +166,13 @@ def run_property(prop, tier, seed, replay=None):
                 pending_corr.append((mr, c, r))
 
         # every case has been judged; minimise and report a few of each kind (oracle rejections first)
-        # flake rule (DESIGN 5.5): the models that run several real processes (`apply`: four node children per case, eight
-        # cases at once; `cluster`: rnacos processes on loopback) depend on the machine's load; a rejection counts only if
-        # the case, run again on its own, is rejected again - otherwise it is logged as inconclusive
+        # flake rule (DESIGN 5.5): a rejection counts only if the case, run again on its own, is rejected again - otherwise
+        # it is logged as inconclusive. The models that run several real processes (`apply`, `cluster`) depend on the
+        # machine's load, and under heavy load even an in-process harness has been seen to lose an actor system once
+        # (`dead` on a reopen that succeeds every time when repeated); a deterministic failure reproduces at no cost
         confirmed = []
         for mr_, c, r_orig in pending_oracle:
-            if mr_.model in ("apply", "cluster") and len(confirmed) < 4:
+            if len(confirmed) < 4:
                 rr, _ = core.run_cases(mr_.model, [c], mr_.impl_env, mr_.spec_needs_impl)
                 if core.judge(rr[0])[1]:
                     notes.append(f"note: inconclusive - case {c.name} was rejected once and accepted when run again on its own")
